@@ -1,7 +1,10 @@
 package main
 
 // splitmix64: every random choice of a case derives from one state.
-type rng struct{ s uint64 }
+type rng struct {
+	s      uint64
+	budget int
+}
 
 func newRng(seed uint64) *rng { return &rng{s: seed*0x9E3779B97F4A7C15 + 0x1234567} }
 
